@@ -47,10 +47,12 @@ func parseEvent(w *ev.Writer, idx int, class string, b []byte) {
 		} else {
 			m["cells"] = t.Cells
 			m["roots"] = t.Roots
-			// hashing, printing and re-serialising must terminate without a crash
+			// hashing, printing and re-serialising must terminate without a crash, in time proportional to the input
 			post := "ok"
 			hs := []string{}
-			func() {
+			done := make(chan struct{})
+			go func() {
+				defer close(done)
 				defer func() {
 					if r := recover(); r != nil {
 						post = "panic: " + fmt.Sprint(r)
@@ -68,6 +70,16 @@ func parseEvent(w *ev.Writer, idx int, class string, b []byte) {
 					}
 				}
 			}()
+			select {
+			case <-done:
+			case <-time.After(postLimit(len(b))):
+				// the call does not return: record it and give up this process (the runner restarts after this input)
+				m["post"] = "timeout"
+				w.Emit(m)
+				w.Emit(ev.M{"k": "Abort", "i": idx})
+				w.Close()
+				os.Exit(3)
+			}
 			m["post"] = post
 			if post == "ok" {
 				m["roothashes"] = hs
@@ -75,6 +87,30 @@ func parseEvent(w *ev.Writer, idx int, class string, b []byte) {
 		}
 	}
 	w.Emit(m)
+}
+
+// postLimit: wall-clock allowance for Hash + ToString + ToBoc on the roots of an accepted input.
+func postLimit(n int) time.Duration {
+	return 20*time.Second + time.Duration(n/32)*time.Millisecond
+}
+
+// forkBomb: n cells, each with two references to the next one: 4 bytes per cell, 2^n paths from the root.
+func forkBomb(n int) []byte {
+	var c *boc.Cell
+	for i := 0; i < n; i++ {
+		p := boc.NewCell()
+		p.WriteUint(uint64(i), 8)
+		if c != nil {
+			p.AddRef(c)
+			p.AddRef(c)
+		}
+		c = p
+	}
+	b, err := c.ToBoc()
+	if err != nil {
+		panic(err)
+	}
+	return b
 }
 
 // mutations of one valid bag.
@@ -202,7 +238,8 @@ func DriveC07(w *ev.Writer, o Opts, skip int, extra string) {
 		f.Close()
 	}
 	if o.Shard == 0 {
-		for _, b := range adversarial() {
+		bombs := [][]byte{forkBomb(18), forkBomb(24), forkBomb(60), forkBomb(200)}
+		for _, b := range append(adversarial(), bombs...) {
 			i := next
 			next++
 			if i >= skip {
